@@ -95,6 +95,7 @@ func checkC11(r *core.Run) {
 	r.Rule("T-sched-shard: store to Shard.CreatedAt/Duration => SetExpiredShardBlock(s.Id, s.CreatedAt+s.Duration) on every success path")
 	r.Rule("CAP-release: deletes on order:Shard/value/ and ShardRelease(non-nil) only from the tabled entry points; CAP-delmeta: DeleteMeta only from Terminate and model.EndBlocker")
 	r.Rule("T-consume: sao/model end-blockers call the handler for every listed id (for-all range) and remove the consumed entry")
+	r.Rule("T-takeover: when a migration completes, the new shard takes over the old shard's current paid period at that moment: OrderId and RenewInfos are copied from the old shard (looked up by shard.From in this transaction) on every path to the market hand-over")
 	r.Rule("T-lifetime: in Complete the model is extended to the height scheduled for the shard; in Renew every persisted renewal is followed by ExtendMetaDuration")
 	r.Rule("T-sched-meta (shared with C05/C13)")
 	r.Assume(aDeps)
@@ -189,6 +190,8 @@ func checkC11(r *core.Run) {
 		// the entry consumed is the one of the current height
 		evalArgFirst(r, "T-consume", c.fn, strings.Replace(c.remove, "Remove", "Get", 1), 0, []string{"uint64(sdk.Context.BlockHeight())"}, "the schedule entry read is the current height's")
 	}
+	// T-takeover
+	ruleTakeover(r)
 	// T-lifetime
 	if fn := r.Func("T-lifetime", "sao/keeper.msgServer.Complete"); fn != nil {
 		res := r.Resolver(fn)
@@ -298,8 +301,10 @@ func checkC12(r *core.Run) {
 	r.Rule("T-timeout-height: the height handed to SetTimeoutOrderBlock is current height + timeout, or CreatedAt + timeout only where the order was created in the same transaction (NewOrder on every path before)")
 	r.Rule("T-exits: every return of HandleTimeoutOrder passed SetTimeoutOrderBlock or is dominated by an allowed classification")
 	r.Rule("T-nowait: the timeoutCount == 0 branch has no bank effect and its RemoveShard loop ranges over a list fed only under shard.Status != Completed")
+	r.Rule("T-replace: in the timeout handler a stalled shard is closed (status := timeout) only together with a replacement shard task in the same loop iteration; a stalled shard without a replacement stays waiting and is counted again at the next check")
 	r.Assume(aDeps)
 	r.Assume(aCG)
+	ruleReplacePaired(r)
 
 	for _, s := range []struct{ fn, trigger string }{
 		{"sao/keeper.msgServer.Store", "sao/keeper.Keeper.GetSps"},
@@ -507,8 +512,27 @@ func checkC13(r *core.Run) {
 	r.Rule("T-listed: NewShardTask/MigrateShard result id appended to <order>.Shards and SetOrder(<order>) before every success exit (callers of GenerateShards/NewOrder persist)")
 	r.Rule("T-alias: SetMetadata of a new id <=> SetModel; RemoveMetadata <=> RemoveModel(key of that metadata's Owner, Alias, GroupId)")
 	r.Rule("T-sched-shard, T-sched-meta (shared)")
+	r.Rule("G-alias-free: NewMeta writes the alias entry and the metadata only when no alias entry exists under that (owner, alias, group) key and no metadata under that data id (unconditionally: an existing entry is never overwritten)")
 	r.Assume(aDeps)
 	r.Assume(aCG)
+	aliasKey := "*"
+	if fn := r.P.Func("model/keeper.Keeper.NewMeta"); fn != nil {
+		// the key under which the alias entry is written (Model.Key := K): the emptiness test must read the same key
+		res := r.Resolver(fn)
+		for _, b := range fn.Blocks {
+			for _, ins := range b.Instrs {
+				if st, ok := ins.(*ssa.Store); ok {
+					if fa, ok := st.Addr.(*ssa.FieldAddr); ok && shortTypeName(fa.X.Type())+"."+fieldNameT(fa.X.Type(), fa.Field) == "model/types.Model.Key" {
+						aliasKey = guard.Exact(normT(res.Of(st.Val).String()))
+					}
+				}
+			}
+		}
+	}
+	evalGuard(r, "G-alias-free", "model/keeper.Keeper.NewMeta", effSel{Calls: []string{"model/keeper.Keeper.SetModel", "model/keeper.Keeper.SetMetadata"}}, []clause{
+		cl("alias-key-unused", guard.False("*model/keeper.Keeper.GetModel("+aliasKey+")#1")),
+		cl("data-id-unused", guard.False("*model/keeper.Keeper.GetMetadata(#3.DataId)#1")),
+	}, 2)
 
 	// ---- T-listed
 	nCreate := 0
@@ -865,4 +889,150 @@ func callersPersist(r *core.Run, f *ssa.Function, depth int) (bool, string) {
 		return false, "it has no caller that persists it"
 	}
 	return true, fmt.Sprintf("every one of its %d call sites is followed by SetOrder on all success paths", n)
+}
+
+// ruleReplacePaired (T-replace): every store Shard.Status := ShardTimeout in the
+// timeout handler is followed, before the current loop iteration ends (or before
+// any return, outside loops), by a NewShardTask call.
+func ruleReplacePaired(r *core.Run) {
+	const id = "T-replace"
+	fnName := "sao/keeper.Keeper.HandleTimeoutOrder"
+	fn := r.Func(id, fnName)
+	if fn == nil {
+		return
+	}
+	tmo := constVal(r, "order/types", "ShardTimeout")
+	resp := map[*ssa.BasicBlock]int{} // block -> index of first NewShardTask call
+	for _, c := range callsIn(r, fn, "order/keeper.Keeper.NewShardTask") {
+		b := c.Block()
+		for i, ins := range b.Instrs {
+			if ins == c.(ssa.Instruction) {
+				if j, ok := resp[b]; !ok || i < j {
+					resp[b] = i
+				}
+			}
+		}
+	}
+	res := r.Resolver(fn)
+	n := 0
+	for _, b := range fn.Blocks {
+		for i, ins := range b.Instrs {
+			st, ok := ins.(*ssa.Store)
+			if !ok {
+				continue
+			}
+			fa, ok := st.Addr.(*ssa.FieldAddr)
+			if !ok || shortTypeName(fa.X.Type())+"."+fieldNameT(fa.X.Type(), fa.Field) != "order/types.Shard.Status" {
+				continue
+			}
+			if res.Of(st.Val).String() != tmo {
+				continue
+			}
+			n++
+			key := core.Key(id, fnName, fmt.Sprintf("close#%d", n))
+			ok2 := false
+			if j, in := resp[b]; in && j > i {
+				ok2 = true
+			}
+			var bad []*ssa.BasicBlock
+			if !ok2 {
+				hdr := innermostLoopHeader(fn, b)
+				blocked := map[*ssa.BasicBlock]bool{}
+				for rb := range resp {
+					blocked[rb] = true
+				}
+				start := true
+				bad = forwardAvoid(b, blocked, nil, func(x *ssa.BasicBlock) bool {
+					if start && x == b {
+						start = false
+						return false
+					}
+					return x == hdr || isReturnBlock(x)
+				})
+				ok2 = bad == nil
+			}
+			if ok2 {
+				r.Discharge(id, key, r.P.Pos(st.Pos()), "closing the stalled shard is followed by NewShardTask in the same iteration")
+			} else {
+				r.Violate(id, key, r.P.Pos(st.Pos()), "the timeout handler closes a stalled shard (Status := ShardTimeout) on a path that does not create a replacement shard task in the same iteration: when fewer replacement providers are found than shards stalled, the surplus shards are closed with no replacement, later checks (which count only waiting shards) forget the missing replica, and the payer is neither served nor refunded", pathDesc(r, bad))
+			}
+		}
+	}
+	r.Floor("shard_close_sites", n, 1)
+}
+
+// ruleTakeover (T-takeover): in Complete, every path to market.Migrate (the
+// hand-over of a migrating shard) passes stores newShard.OrderId :=
+// oldShard.OrderId and newShard.RenewInfos := oldShard.RenewInfos, where
+// oldShard is read in this transaction (GetOrderShardBySP(order, shard.From)).
+// HandleExpiredShard finds the order to settle through Shard.OrderId; an id
+// captured earlier (at MsgMigrate) is stale once the old shard has rolled over
+// into a renewal, and the shard is then never released.
+func ruleTakeover(r *core.Run) {
+	const id = "T-takeover"
+	fnName := "sao/keeper.msgServer.Complete"
+	fn := r.Func(id, fnName)
+	if fn == nil {
+		return
+	}
+	res := r.Resolver(fn)
+	mig := callsIn(r, fn, "market/keeper.Keeper.Migrate")
+	if len(mig) == 0 {
+		mig = callsIn(r, fn, "sao/types.MarketKeeper.Migrate")
+	}
+	if len(mig) == 0 {
+		r.Undecide(id, core.Key(id, fnName, "hand-over"), r.P.FuncPos(fn), "vacuous: no call of market Migrate in Complete")
+		return
+	}
+	for _, field := range []string{"OrderId", "RenewInfos"} {
+		blocks := map[*ssa.BasicBlock]bool{}
+		for _, b := range fn.Blocks {
+			for _, ins := range b.Instrs {
+				st, ok := ins.(*ssa.Store)
+				if !ok {
+					continue
+				}
+				fa, ok := st.Addr.(*ssa.FieldAddr)
+				if !ok || shortTypeName(fa.X.Type())+"."+fieldNameT(fa.X.Type(), fa.Field) != "order/types.Shard."+field {
+					continue
+				}
+				vt := normT(res.Of(st.Val).String())
+				if guard.Glob("order/keeper.Keeper.GetOrderShardBySP(*.From)."+field).MatchString(vt) {
+					blocks[b] = true
+				}
+			}
+		}
+		for i, c := range mig {
+			key := core.Key(id, fnName, fmt.Sprintf("Migrate#%d", i+1), "new shard takes over "+field)
+			B := c.Block()
+			ok := blocks[B] // same block: stores precede the call in source order (checked below)
+			if ok {
+				ok = false
+				for _, ins := range B.Instrs {
+					if st, isSt := ins.(*ssa.Store); isSt {
+						if fa, isFa := st.Addr.(*ssa.FieldAddr); isFa && fieldNameT(fa.X.Type(), fa.Field) == field {
+							ok = true
+						}
+					}
+					if ins == c.(ssa.Instruction) {
+						break
+					}
+				}
+			}
+			if !ok && len(blocks) > 0 {
+				bl := map[*ssa.BasicBlock]bool{}
+				for b := range blocks {
+					if b != B {
+						bl[b] = true
+					}
+				}
+				ok = len(bl) > 0 && forwardAvoid(fn.Blocks[0], bl, nil, func(x *ssa.BasicBlock) bool { return x == B }) == nil
+			}
+			if ok {
+				r.Discharge(id, key, r.P.Pos(c.Pos()), "every path to the hand-over copies "+field+" from the old shard read in this transaction")
+			} else {
+				r.Violate(id, key, r.P.Pos(c.Pos()), "Complete hands a migrating shard over without copying "+field+" from the old shard as it is now (GetOrderShardBySP(order, shard.From)."+field+"): a value captured earlier (when MsgMigrate was sent) is stale once the old shard has rolled over into a renewal, HandleExpiredShard then cannot find the shard's order at the end of its term, and the shard is never released")
+			}
+		}
+	}
 }
